@@ -229,7 +229,8 @@ SPEC = C13()
 MANIFEST = dict(
     text='Coq theorems (Properties_C13.v) over an executable model of src/slist.c: for every operation sequence the '
          'tail/count fields describe the chain, every call refines the reference sequence semantics, push_back appends '
-         'at the true end, pop_front on empty returns NULL, nothing faults. The model is tied to the C code on every run '
+         'at the true end, pop_front on empty returns NULL, nothing faults; a second, pointer-level model (heap of next links, one update '
+         'per C assignment, recursive merge sort on stack-local heads) is proved to be simulated by the first for every history. Both models are tied to the C code on every run '
          'by differential execution (closure of the model state space in a small scope + seeded random histories) under ASan/UBSan.',
     note='trusted: Coq kernel; hand transcription of slist.c into SListModel.v validated only by the correspondence run; '
          'extraction (ExtrOcamlBasic) + OCaml runner; C driver; comparison callbacks modelled as key projections',
